@@ -28,7 +28,7 @@ pub fn def() -> PropDef {
         rule: "every hook script of <=2 (thorough <=3) table calls from a set of initial packets, generated state-dependently so that the table's documented preconditions hold (iterator handles only inside their callback, typed accessors not on EDNS handles, rr_ip/set_rr_ip only on address records with a buffer of that family, 256-byte name buffers): all getters/setters, iter_* with per-record callback programs on every record index, add_to_* with good and bad text, raw_packet with capacities {0, len-1, len, 8192}, question, raw_name_from_str, rename; C transcript == native transcript, final object == native object, canaries around every out-buffer intact; table layout (size, entry count, abi_version offset and value) compared; distinct classes = (step kinds, outcome kinds)",
         run,
         replay,
-        bounds: |t| json!({"initial_packets": initial().len(), "script_len": 3, "callback_program_len": 2, "raw_packet_capacities": ["0", "len-1", "len", "8192"]}),
+        bounds: |_t| json!({"initial_packets": initial().len(), "script_len": 3, "callback_program_len": 2, "raw_packet_capacities": ["0", "len-1", "len", "8192"]}),
         assumptions: &["undefined behaviour that neither changes a transcript, nor touches a canary (64 bytes before, >=4 KiB after each buffer), nor crashes the process is not detected"],
         budget_s: |t| t.pick(55, 1200),
         exhaustive: true,
